@@ -40,6 +40,9 @@ CLAIMS["C08"] = ("stateless model checking of the real code under a virtual cloc
 CLAIMS["C09"] = ("stateless model checking of the real code under a virtual clock: delay-bounded schedule enumeration with a cancel-attempt monitor",
     "Sets of 2-3 futures with default / per-call timeouts and f_timeout, submitted at virtual times 0/0.5/1 from separate threads, completing before / at / after their deadline or never, with a user cancel: every schedule to d<=2 (sync-op) / d<=1 (line granularity of timeout.py) is executed; every cancel() attempt by the timeout thread is logged: none before the deadline, at most one per future, exactly one in [deadline, deadline+8 eps] for a future still pending then, none for early finishers whose outcome is kept. Thorough adds a timer-jump pass for 'never early'.",
     "DESIGN.md section 6 C09")
+CLAIMS["C18"] = ("stateless model checking of the real code: fault-site enumeration x delay-bounded schedule enumeration, with a liveness probe submission",
+    "Every user-code call site (callable, map/error/flat_map fn incl. non-future return, poll fn, cancel fn, should_retry, sleep_time, count callable, done-callback) raising at call 1, 2 or every call, on each layer and five stacks, optionally with a concurrent cancel, followed by a probe submission; plus cancel() placed at the instant a retry becomes due: every schedule to d<=1 (faults) / d<=2 (cancel races) is executed; oracles: futures that did not flow through the faulty call keep their reference outcome, the fault is the owner's outcome or is logged, the probe is served, no library thread dies, nothing escapes a Future method or submit(), no InvalidStateError/assertion is logged as an error.",
+    "DESIGN.md section 6 C18")
 NOT_YET = {}
 
 props = [json.loads(l) for l in open(os.path.join(HERE, "properties.jsonl"))]
